@@ -42,6 +42,10 @@ def run(tier, seed, res, lean):
         res.violations.append(Violation(
             'c03-correspondence', 'the call logs of vm.py and of CM.Model.VM differ (as multisets); theorems C03.* no longer tied to the code',
             {'suite': 'S-VM', 'theorems': list(lean['theorems']), **bad[0]}, found_input=False))
+    # Instance access `pipeline(id)[names]`: one request is one call of one compiled function
+    from .. import suite_compile
+    for p in [p for i in range(6 if tier == 'quick' else 40) for p in suite_compile.run_instance_requests(seed * 83 + i)][:3]:
+        res.violations.append(Violation('c03-instance-request', p['msg'][:400], {'suite': 'S-COMPILE/instance', **p}))
     # pipeline level: the id mappings of GroupBy / Split / Join are key material kept once per pipeline object; reading ids again
     # (also after another pipeline built from the same layer object was used) executes nothing (S-REL, memo part)
     from .. import suite_rel
